@@ -400,6 +400,13 @@ cdef class ParticleArray:
         tag_def_values = self.default_values['tag']
         self.default_values.clear()
         self.default_values = {'tag':tag_def_values, 'pid':0, 'gid':_UINT_MAX}
+        # the bookkeeping of the removed properties goes with them.
+        self.stride = {}
+        if self.output_property_arrays is not None:
+            self.output_property_arrays = [
+                x for x in self.output_property_arrays if x in self.properties
+            ]
+        self.num_real_particles = 0
 
     cpdef set_time(self, double time):
         self.time = time
